@@ -81,6 +81,7 @@ type Exec struct {
 	iterMap     map[ssa.Value]Val
 	alloc0      string
 	canaryDone  bool
+	escCache    map[*ssa.Alloc]bool
 	arrOrigin   map[string]originInfo // backing arrays created by slicing an array value
 	alias       map[string][]string   // backing-array term -> arrays it may denote (append results)
 	unfoldDepth map[string]int
@@ -125,7 +126,7 @@ func (x *Exec) note(s string) { x.notes[s] = true }
 func newExec(eng *Engine, fn *ssa.Function, con *Contract, key string, bound int) *Exec {
 	return &Exec{eng: eng, decls: newDecls(), fn: fn, con: con, key: key, bound: bound, tags: map[string]int{}, strs: map[string]int{},
 		keyTypes: map[string]types.Type{}, arrStorage: map[string]bool{}, labels: map[ssa.Instruction]string{}, loops: map[*ssa.Function]*LoopInfo{},
-		notes: map[string]bool{}, alias: map[string][]string{}, arrOrigin: map[string]originInfo{}, iterMap: map[ssa.Value]Val{}, proveCache: map[string]bool{}, errGlobals: map[string]bool{}, noWrapRec: map[string]bool{}}
+		notes: map[string]bool{}, alias: map[string][]string{}, arrOrigin: map[string]originInfo{}, escCache: map[*ssa.Alloc]bool{}, iterMap: map[ssa.Value]Val{}, proveCache: map[string]bool{}, errGlobals: map[string]bool{}, noWrapRec: map[string]bool{}}
 }
 
 // ---------- labels ----------
